@@ -77,8 +77,12 @@ int main(int argc, char **argv) {
     std::string src;
     if (!jfield(line, "id", g_id) || !jfield(line, "src", src)) continue;
     if (tokensonly) {
+      struct itimerval tk = {{0, 0}, {cpu_s < 5 ? cpu_s : 5, 0}};      // a lexer that never reaches the end of its input must not hang the check
+      setitimer(ITIMER_VIRTUAL, &tk, nullptr);
       std::ostringstream ts; std::string st = "ok";
       try { hexasm::Lexer lx; lx.loadBuffer(src); lx.emitTokens(ts); } catch (const std::exception &) { st = "error"; }
+      struct itimerval tk0 = {{0, 0}, {0, 0}};
+      setitimer(ITIMER_VIRTUAL, &tk0, nullptr);
       fprintf(g_out, "{\"id\":\"%s\",\"idx\":%ld,\"status\":\"%s\",\"tokens\":\"%s\"}\n", jesc(g_id).c_str(), g_index, st.c_str(), jesc(ts.str()).c_str());
       continue;
     }
